@@ -95,13 +95,13 @@ XSTREAM = {'flatop': 'flat-operator', 'flatpipe': 'flat-operator-pipe', 'leglook
 
 def linalg_streams(ctx, rng, seen, all_hist):
     """streams of harness/c02_linalg.py + coverage table of the public API of tenpy.linalg (by reflection, in the implementation's interpreter)"""
-    nx = {'leglookup': ctx.pick(500, 4000), 'flatop': ctx.pick(350, 2800), 'flatpipe': ctx.pick(150, 1200), 'linalg': ctx.pick(250, 2000)}
+    nx = {'leglookup': ctx.pick(400, 4000), 'flatop': ctx.pick(300, 2800), 'flatpipe': ctx.pick(120, 1200), 'linalg': ctx.pick(200, 2000)}
     if not ctx.proof.ok:
         nx = {k: 3 * v for k, v in nx.items()}
     cases = [c['xcase'] for c in common.corpus_cases(PROP) if 'xcase' in c]
     cases += [c02_linalg.gen_case(rng, k) for k, n in nx.items() for _ in range(n)]
     api_calls = {}
-    for config, opt0, sel in (('py', True, cases), ('cy', False, cases[::3])):
+    for config, opt0, sel in (('py', True, cases), ('cy', False, cases[::4])):
         results, infos, crashes = cc.run_programs('c02x', sel, config, opt0)
         for kind2, stream in XSTREAM.items():
             idx = [i for i, c in enumerate(sel) if c['kind2'] == kind2]
